@@ -12,6 +12,7 @@ EXTENDS OTPos, UfoKerning, Json, IOUtils, TLC, TLCExt
 Traces == ndJsonDeserialize(IOEnv.TRACE_FILE)
 VARIABLE i
 
+Has(r, f) == f \in DOMAIN r
 G(t, g) == t.glyphs[g + 1]
 Scripts(t, g) == Rng(G(t, g).scripts)
 Bidi(t, g) == Rng(G(t, g).bidi)
@@ -49,6 +50,13 @@ Known_C05_3(t, a, b, adv) ==
   /\ Known_C05_1(t, a, b)
   /\ \E k \in 1..Len(t.kerning) : k # Deciding(t.kerning, t.groups, Exported(t), a, b) /\ Covers(t, k, a, b) /\ Quant(t.kerning[k].v, t.q) = adv
 
+\* Known finding F-C05-4: the source declares no glyph classes (no public.openTypeCategories, no GDEF in the feature file), so
+\* the kern writer treats every glyph as a base and puts all pairs in the lookup that IGNORES MARKS -- while the mark writer's
+\* markClass statements make feaLib classify the attaching glyphs as marks in the compiled GDEF: a pair with such a glyph
+\* can never apply
+Declared(t) == Has(t, "declared") /\ t.declared
+Known_C05_4(t, a, b, adv) == ~Declared(t) /\ Has(t, "declared") /\ (IsMarkGlyph(t.F, a) \/ IsMarkGlyph(t.F, b)) /\ adv = 0
+
 AllLangs(t) == UNION {Languages(t.F, t.tags[k].tag) : k \in 1..Len(t.tags)}
 Triples(t) == {x \in (1..Len(t.tags)) \X AllLangs(t) \X Exported(t) \X Exported(t) :
                   LET k == x[1]  lang == x[2]  a == x[3]  b == x[4] IN
@@ -58,8 +66,10 @@ Triples(t) == {x \in (1..Len(t.tags)) \X AllLangs(t) \X Exported(t) \X Exported(
                   /\ \E l2 \in Languages(t.F, t.tags[k].tag) : HasKern(t, t.tags[k], l2)
                   /\ Admissible(t, t.tags[k], a) /\ Admissible(t, t.tags[k], b)}
 
-AdvBad(t)  == {x \in Triples(t) : ~Mixed(t, x[3], x[4]) /\ ~Known_C05_1(t, x[3], x[4])
+AdvOff(t)  == {x \in Triples(t) : ~Mixed(t, x[3], x[4]) /\ ~Known_C05_1(t, x[3], x[4])
                                   /\ PairValue(t.F, t.tags[x[1]].tag, x[2], x[3], x[4]).adv # Expected(t, x[3], x[4])}
+AdvKnown4(t) == {x \in AdvOff(t) : Known_C05_4(t, x[3], x[4], PairValue(t.F, t.tags[x[1]].tag, x[2], x[3], x[4]).adv)}
+AdvBad(t) == AdvOff(t) \ AdvKnown4(t)
 AdvKnown(t) == {x \in Triples(t) : ~Mixed(t, x[3], x[4]) /\ Known_C05_1(t, x[3], x[4])
                                   /\ PairValue(t.F, t.tags[x[1]].tag, x[2], x[3], x[4]).adv # Expected(t, x[3], x[4])}
 MixedOff(t) == {x \in Triples(t) : Mixed(t, x[3], x[4])
@@ -89,7 +99,7 @@ Next ==
          w == IF ab # {} THEN Witness(ab) ELSE IF mb # {} THEN Witness(mb) ELSE IF pb # {} THEN Witness(pb)
               ELSE IF lb # {} THEN Witness(lb) ELSE Witness(yb)
      IN PrintT(<<"VERDICT", t.tid, p, "none", Cardinality(Triples(t)), Cardinality(AdvKnown(t)), Cardinality(PlcKnown(t)),
-                 ToString(w), Cardinality(MixedKnown(t))>>)
+                 ToString(w), Cardinality(MixedKnown(t)), Cardinality(AdvKnown4(t))>>)
   /\ i' = i + 1
 Spec == Init /\ [][Next]_i
 =============================================================================
